@@ -97,3 +97,70 @@ Check C05_degree_test : forall (PR : PrimeR) k w N T pts m,
   (forall x, In x pts -> fsub (fpow_nat x n) fone <> fzero /\ fmul (peval T x) (fsub (fpow_nat x n) fone) = peval N x) ->
   ((length (ptrim T) <= m - n)%nat <-> forall i, (i < n)%nat -> peval N (fpow_nat w i) = fzero).
 Print Assumptions C05_degree_test.
+
+(* ---- the quotient numerator on the proving domain (quotient_poly.rs, permutation/proverkey.rs,
+   composer/permutation.rs) ---- *)
+From PlonkV Require Import Alg.FFT Protocol.Quotient.
+
+(* satisfied rows and respected copy constraints: at every domain element the numerator
+   row identity + alpha * permutation identity + alpha^2 * (z - 1) * L1  is zero, for all challenges;
+   with C05_degree_test the interpolated quotient is short, i.e. proving does not return the
+   unsatisfied-circuit error *)
+Theorem C05_numerator_zero_on_domain : forall (PR : PrimeR) rows asg w sigma alpha beta gamma kr kl kf kv,
+  let n := nrows rows in
+  (0 < n)%nat -> sat rows asg ->
+  Permutation (map sigma (positions n)) (positions n) ->
+  (forall p, In p (positions n) -> wv rows asg (sigma p) = wv rows asg p) ->
+  (forall j, (j < n)%nat -> pden (col_a rows asg) (col_b rows asg) (col_c rows asg) (col_d rows asg)
+                                 (sg w sigma 0) (sg w sigma 1) (sg w sigma 2) (sg w sigma 3) beta gamma j <> fzero) ->
+  let z := zval w (col_a rows asg) (col_b rows asg) (col_c rows asg) (col_d rows asg)
+                (sg w sigma 0) (sg w sigma 1) (sg w sigma 2) (sg w sigma 3) beta gamma in
+  forall i, (i < n)%nat ->
+    fadd (row_sum (row_gate rows i) (row_wires rows asg i) (row_wires rows asg (next_row rows i)) kr kl kf kv (row_pi rows i))
+         (perm_at w (col_a rows asg) (col_b rows asg) (col_c rows asg) (col_d rows asg)
+                  (sg w sigma 0) (sg w sigma 1) (sg w sigma 2) (sg w sigma 3) alpha beta gamma i (z i) (z (next_row rows i))) = fzero.
+Proof. intros PR rows asg w sigma alpha beta gamma kr kl kf kv. exact (numerator_zero_on_domain rows asg w sigma alpha beta gamma kr kl kf kv). Qed.
+Check C05_numerator_zero_on_domain : forall (PR : PrimeR) rows asg w sigma alpha beta gamma kr kl kf kv,
+  let n := nrows rows in
+  (0 < n)%nat -> sat rows asg ->
+  Permutation (map sigma (positions n)) (positions n) ->
+  (forall p, In p (positions n) -> wv rows asg (sigma p) = wv rows asg p) ->
+  (forall j, (j < n)%nat -> pden (col_a rows asg) (col_b rows asg) (col_c rows asg) (col_d rows asg)
+                                 (sg w sigma 0) (sg w sigma 1) (sg w sigma 2) (sg w sigma 3) beta gamma j <> fzero) ->
+  let z := zval w (col_a rows asg) (col_b rows asg) (col_c rows asg) (col_d rows asg)
+                (sg w sigma 0) (sg w sigma 1) (sg w sigma 2) (sg w sigma 3) beta gamma in
+  forall i, (i < n)%nat ->
+    fadd (row_sum (row_gate rows i) (row_wires rows asg i) (row_wires rows asg (next_row rows i)) kr kl kf kv (row_pi rows i))
+         (perm_at w (col_a rows asg) (col_b rows asg) (col_c rows asg) (col_d rows asg)
+                  (sg w sigma 0) (sg w sigma 1) (sg w sigma 2) (sg w sigma 3) alpha beta gamma i (z i) (z (next_row rows i))) = fzero.
+Print Assumptions C05_numerator_zero_on_domain.
+
+(* the permutation identity at the wrap-around row holds exactly when the grand product closes *)
+Theorem C05_perm_closing_iff : forall (PR : PrimeR) n w wa wb wc wd s1 s2 s3 s4 alpha beta gamma,
+  (2 <= n)%nat -> alpha <> fzero -> (forall j, (j < n)%nat -> pden wa wb wc wd s1 s2 s3 s4 beta gamma j <> fzero) ->
+  perm_at w wa wb wc wd s1 s2 s3 s4 alpha beta gamma (n - 1)
+          (zval w wa wb wc wd s1 s2 s3 s4 beta gamma (n - 1)) (zval w wa wb wc wd s1 s2 s3 s4 beta gamma 0) = fzero
+  <-> zval w wa wb wc wd s1 s2 s3 s4 beta gamma n = fone.
+Proof. intros PR n w wa wb wc wd s1 s2 s3 s4 alpha beta gamma. exact (perm_at_closing_iff n w wa wb wc wd s1 s2 s3 s4 alpha beta gamma). Qed.
+Check C05_perm_closing_iff : forall (PR : PrimeR) n w wa wb wc wd s1 s2 s3 s4 alpha beta gamma,
+  (2 <= n)%nat -> alpha <> fzero -> (forall j, (j < n)%nat -> pden wa wb wc wd s1 s2 s3 s4 beta gamma j <> fzero) ->
+  perm_at w wa wb wc wd s1 s2 s3 s4 alpha beta gamma (n - 1)
+          (zval w wa wb wc wd s1 s2 s3 s4 beta gamma (n - 1)) (zval w wa wb wc wd s1 s2 s3 s4 beta gamma 0) = fzero
+  <-> zval w wa wb wc wd s1 s2 s3 s4 beta gamma n = fone.
+Print Assumptions C05_perm_closing_iff.
+
+(* the polynomials the prover interpolates take the table values on the domain, blinded or not *)
+Theorem C05_blinded_at_domain : forall (PR : PrimeR) num_coeffs ev b i,
+  (domain_log num_coeffs <= 32)%nat ->
+  let k := domain_log num_coeffs in
+  length ev = Nat.pow 2 k -> (i < Nat.pow 2 k)%nat ->
+  let x := fpow_nat (domain_gen k) i in
+  fadd (peval (ifft num_coeffs ev) x) (fmul (peval b x) (vanishing_eval k x)) = nth i ev fzero.
+Proof. exact @blinded_at_domain. Qed.
+Check C05_blinded_at_domain : forall (PR : PrimeR) num_coeffs ev b i,
+  (domain_log num_coeffs <= 32)%nat ->
+  let k := domain_log num_coeffs in
+  length ev = Nat.pow 2 k -> (i < Nat.pow 2 k)%nat ->
+  let x := fpow_nat (domain_gen k) i in
+  fadd (peval (ifft num_coeffs ev) x) (fmul (peval b x) (vanishing_eval k x)) = nth i ev fzero.
+Print Assumptions C05_blinded_at_domain.
